@@ -400,7 +400,7 @@ def check_parse(rep, exe, cases, tag, stats, samples):
                    "panic": "parser_panic"}[r["r"]]
             rep.mismatch(cls, "parse:" + top_op(c["ast"]), text=c["texts"][style], style=style,
                          expected=c["ast"], actual=r,
-                         script=[{"leg": "parse", "cfg": tag, "text": c["texts"]["canon"]}])
+                         script=[{"leg": "parse", "cfg": tag, "text": c["texts"]["canon"], "ast": c["ast"]}])
     if cases and len(samples) < 4:
         c = cases[len(cases) // 2]
         samples.append({"leg": "parse", "text": c["texts"]["canon"], "ast": c["ast"], "result": res[c["id"]]})
@@ -421,21 +421,27 @@ def check_eval(rep, exe, puppet, line, cases, spec_env, tag, stats, samples, bud
         ops = ops_of(c["ast"])
         cls = judge_eval(c, r, addrs, stats)
         kinds = {o["r"] for o in c["exp"]}
+        # vacuity is judged on what the specification demanded, independent of the implementation
+        if "any" not in kinds:
+            if "val" in kinds:
+                stats["value_expected"][ops[0]] = stats["value_expected"].get(ops[0], 0) + 1
+                identity(c, ops, stats)
+                lit = c["ast"].get("lit")
+                if lit and c["ast"]["e"]["op"] == "var" and kinds == {"val"}:
+                    stats["key_forms"].add(lit["t"])
+            else:
+                stats["none_expected"][ops[0]] = stats["none_expected"].get(ops[0], 0) + 1
         if cls is None:
             if r["r"] == "value":
                 stats["nontrivial"].add(("e", c["texts"]["canon"], vlib.stable_hash(r["v"])))
                 if "any" not in kinds:
                     stats["value_agreed"][ops[0]] = stats["value_agreed"].get(ops[0], 0) + 1
-                    lit = c["ast"].get("lit")
-                    if lit and c["ast"]["e"]["op"] == "var" and "none" not in kinds:
-                        stats["key_forms"].add(lit["t"])
-                    identity(c, ops, stats)
             elif "val" not in kinds and "any" not in kinds:
                 stats["none_agreed"][ops[0]] = stats["none_agreed"].get(ops[0], 0) + 1
             continue
         rep.mismatch(cls, "eval:" + ops[0], text=c["texts"]["canon"], shape=".".join(reversed(ops)),
                      panic_msg=r.get("msg", ""), expected=c["exp"], actual=r,
-                     script=[{"leg": "eval", "cfg": tag, "text": c["texts"]["canon"]}])
+                     script=[{"leg": "eval", "cfg": tag, "text": c["texts"]["canon"], "ast": c["ast"]}])
     picks = [c for c in cases if res[c["id"]][0]["r"] == "value" and c["d"] >= 2][:: max(1, len(cases) // 40)]
     for c in picks[:3]:
         samples.append({"leg": "eval", "text": c["texts"]["canon"], "expected": c["exp"],
@@ -459,7 +465,8 @@ def identity(c, ops, stats):
 
 def new_stats():
     return {"parsed": 0, "parse_same": 0, "spaced_rejected": 0, "evaluated": 0, "nontrivial": set(),
-            "value_agreed": {}, "none_agreed": {}, "key_forms": set(),
+            "value_agreed": {}, "none_agreed": {}, "value_expected": {}, "none_expected": {},
+            "key_forms": set(),
             "identities": {"*&x = x": 0, "(~v).len = |v|": 0, "*(T)addr reads T at addr": 0,
                            "a[i] / a[key]": 0, "a[l..r]": 0}}
 
@@ -467,10 +474,10 @@ def new_stats():
 def vacuity(stats, legs):
     if "eval" in legs:
         for op in ("field", "index", "slice", "deref", "addr", "canonic"):
-            if not stats["value_agreed"].get(op):
-                raise vlib.ToolError(f"vacuous: no agreed value for operator {op}")
-            if op != "canonic" and not stats["none_agreed"].get(op):     # canonic applies to everything
-                raise vlib.ToolError(f"vacuous: no agreed 'no result' for operator {op}")
+            if not stats["value_expected"].get(op):
+                raise vlib.ToolError(f"vacuous: the specification never demands a value for operator {op}")
+            if op != "canonic" and not stats["none_expected"].get(op):     # canonic applies to everything
+                raise vlib.ToolError(f"vacuous: the specification never demands 'no result' for operator {op}")
         need = {"int", "float", "str", "bool", "addr", "variant", "arr", "assoc"}
         if "float" not in stats["key_forms"]:
             # a float can only be a key inside a wrapper: {1.5}; covered by the arr form on hm_f
@@ -533,6 +540,8 @@ def run(rep, tier, replay):
         "per_cfg": per_cfg,
         "values_agreed_by_top_operator": stats["value_agreed"],
         "no_result_agreed_by_top_operator": stats["none_agreed"],
+        "values_demanded_by_top_operator": stats["value_expected"],
+        "no_result_demanded_by_top_operator": stats["none_expected"],
         "literal_key_forms_matched": sorted(stats["key_forms"]),
         "identity_instances": stats["identities"],
         "pointer_results_checked_against_puppet_addresses": stats.get("ptr_checked", 0),
@@ -547,24 +556,54 @@ def run(rep, tier, replay):
     ])
 
 
+def tla_of(j):
+    """a JSON value (as printed by ToJson) back as a TLA+ expression"""
+    if isinstance(j, bool):
+        return "TRUE" if j else "FALSE"
+    if isinstance(j, int):
+        return str(j)
+    if isinstance(j, str):
+        return '"' + j.replace("\\", "\\\\").replace('"', '\\"') + '"'
+    if isinstance(j, list):
+        return "<<" + ", ".join(tla_of(x) for x in j) + ">>"
+    if isinstance(j, dict) and j:
+        return "[" + ", ".join(f"{k} |-> {tla_of(v)}" for k, v in j.items()) + "]"
+    raise vlib.ToolError(f"cannot render {j!r} as TLA+")
+
+
 def run_replay(rep, tier, replay):
+    """Re-run one stored case: TLC recomputes texts and the outcome set of the stored AST from Dqe.tla
+    (module DqeReplay generated in work/), the driver re-executes it, same comparator."""
     rec = json.loads(Path(replay).read_text())
     step = rec["script"][0]
     exe = vlib.cargo_build("c07")
-    sim = None
-    cfg = step["cfg"]
-    if cfg.endswith("d4.cfg"):
-        sim = 4000 if "parse" in cfg else 3000
-    r, cases, env = enumerate_cases(cfg, 4, 1200, simulate=sim, depth=(6 if sim else None))
-    hit = [c for c in cases if c["texts"]["canon"] == step["text"]]
-    if not hit:
-        raise vlib.ToolError(f"replay: TLC no longer enumerates {step['text']} in {cfg}")
+    wd = SCRATCH / f"replay-{os.getpid()}"
+    wd.mkdir(parents=True, exist_ok=True)
+    mode = "eval" if step["leg"] == "eval" else "parse"
+    (wd / "DqeReplay.tla").write_text(
+        "---- MODULE DqeReplay ----\nEXTENDS Dqe\nX == " + tla_of(step["ast"]) + "\n"
+        'ASSUME PrintT(<<"RCASE", ToJson([d |-> 0, ast |-> X, exp |-> IF Mode = "eval" THEN Eval(X) ELSE {},\n'
+        '   texts |-> [canon |-> ShowS(X, "canon"), full |-> ShowS(X, "full"), spaced |-> ShowS(X, "spaced")]])>>)\n'
+        "====\n")
+    (wd / "DqeReplay.cfg").write_text(
+        f'SPECIFICATION Spec\nCONSTANTS\n  Mode = "{mode}"\n  MaxDepth = 0\n  Rich = TRUE\n')
+    r = vlib.tlc("DqeReplay", "DqeReplay.cfg", workers=1, timeout=300, cwd=wd, heap="2g",
+                 jvm=[f"-DTLA-Library={vlib.SPEC}"], name=f"c07replay")
+    vlib.tlc_expect_ok(r, "DqeReplay")
+    hit = [c for c in vlib.printed(r.out, "RCASE") if isinstance(c, dict)][:1]
+    env = vlib.printed(r.out, "ENV")
+    if not hit or not env:
+        raise vlib.ToolError(f"replay: TLC did not evaluate the stored expression\n{r.out[-1500:]}")
+    hit[0]["id"] = 0
+    for f in wd.iterdir():
+        f.unlink()
+    wd.rmdir()
     stats, samples = new_stats(), []
     if step["leg"] == "parse":
-        check_parse(rep, exe, hit, cfg, stats, samples)
+        check_parse(rep, exe, hit, step["cfg"], stats, samples)
     else:
         puppet, line = build_puppet()
-        check_eval(rep, exe, puppet, line, hit, env, cfg, stats, samples, 120)
+        check_eval(rep, exe, puppet, line, hit, env[0], step["cfg"], stats, samples, 120)
     return rep.finish("exploration", {"evaluations": stats["parsed"] + stats["evaluated"],
                                       "distinct_nontrivial": len(stats["nontrivial"]), "rule": RULE,
                                       "samples": samples or [{"replayed": step}], "replay_of": str(replay)})
